@@ -142,6 +142,18 @@ fn other_addr(r: &mut Rng, own: u16) -> u16 { loop { let a = r.u16b() as u16; if
 fn small_packet(r: &mut Rng, addr: u16) -> Packet { let n = r.below(12) as usize; Packet { is_error: r.chance(1, 5), device_address: addr, data: r.bytes(n) } }
 fn push_list(l: &mut L, body: &[u64]) { l.push(body.len() as u64); l.extend_from_slice(body); }
 pub fn gen_pro(r: &mut Rng, thorough: bool, cx: &mut Ctx) {
+    // large handler tables: many registrations, a few removals in the middle, then deliveries to everybody and more registrations
+    for &nh in (if thorough { &[33u64, 40, 65, 100, 129, 257, 300, 1000][..] } else { &[33u64, 40, 65, 100, 129, 257, 300][..] }) {
+        let own: u16 = if r.coin() { 0xffff } else { r.u16b() as u16 };
+        let mut ops: Vec<L> = vec![];
+        for i in 0..nh { ops.push(vec![0, 1000 + i, r.chance(1, 3) as u64, 0]); }
+        for _ in 0..5 { ops.push(vec![1, r.below(nh)]); }
+        for a in [own, other_addr(r, own)] { let mut b: L = vec![2, 1]; let mut g: L = vec![0]; let p = small_packet(r, a); show_packet(&p, &mut g); push_list(&mut b, &g); ops.push(b); }
+        for i in 0..8 { ops.push(vec![0, 5000 + i, 0, 0]); }
+        { let mut b: L = vec![3]; let p = small_packet(r, own); show_packet(&p, &mut b); ops.push(b); }
+        let mut l = vec![own as u64, ops.len() as u64]; for o in ops.iter() { push_list(&mut l, o); }
+        cx.emit(&l);
+    }
     for _ in 0..(if thorough { 60000 } else { 4000 }) {
         let own: u16 = match r.below(6) { 0 => 0, 1 => 1, 2 => 0xfffe, 3 | 4 => 0xffff, _ => r.u16b() as u16 };
         let nops = r.range(1, 60);
